@@ -45,6 +45,11 @@ def drives(ph):
             {"amp": ["ramp", 40, 6.0, 1.0], "det": ["const", 40, 2.0], "phase": ph + 1.3},
         ],
         "interp": [{"amp": ["interp", 100, [0.0, 5.0, 2.0, 0.0]], "det": ["interp", 100, [-3.0, 4.0, 1.0]], "phase": ph}],
+        # same amplitude and detuning, phase ph then ph + pi exactly (for ph = 0: phases 0 and pi, i.e. sin(phi) = 0 throughout)
+        "echo": [
+            {"amp": ["const", 50, 8.0], "det": ["const", 50, 1.5], "phase": ph},
+            {"amp": ["const", 50, 8.0], "det": ["const", 50, 1.5], "phase": ph + float(np.pi)},
+        ],
     }
 
 
@@ -52,7 +57,7 @@ def _alph(tier):
     if tier == "quick":
         return dict(
             shape=["pair", "bent3"],
-            drive=["const", "rampdet", "blackman", "twophase", "interp"],
+            drive=["const", "rampdet", "blackman", "twophase", "interp", "echo"],
             phase=[0.0, 0.7],
             dmm=[0, 1],
             slm=[0, 1],
@@ -65,7 +70,7 @@ def _alph(tier):
         )
     return dict(
         shape=["one", "pair", "bent3", "tri3", "rect4"],
-        drive=["const", "rampdet", "blackman", "twophase", "interp"],
+        drive=["const", "rampdet", "blackman", "twophase", "interp", "echo"],
         phase=[0.0, 0.7, float(np.pi)],
         dmm=[0, 1, 2],
         slm=[0, 1, 2],
